@@ -1,6 +1,7 @@
 package govc
 
 import (
+	"strconv"
 	"bytes"
 	"context"
 	"fmt"
@@ -29,9 +30,20 @@ type SolveOpts struct {
 	FirstTry  time.Duration // z3 alone first
 	Workers   int
 	WantModel bool
+	BatchOnly bool // no racing, no individual retries
 }
 
+// solverSlots bounds the number of solver processes running at once (timeouts are wall-clock, so
+// oversubscribing the cores turns provable obligations into timeouts).
+var solverSlots = make(chan struct{}, 14)
+
 func runSolver(ctx context.Context, sv Solver, file string, timeout time.Duration) (string, string) {
+	select {
+	case solverSlots <- struct{}{}:
+		defer func() { <-solverSlots }()
+	case <-ctx.Done():
+		return "timeout", ""
+	}
 	args := sv.Args(file, int(timeout/time.Millisecond))
 	cctx, cancel := context.WithTimeout(ctx, timeout+2*time.Second)
 	defer cancel()
@@ -220,7 +232,8 @@ func parseModel(out string) map[string]string {
 func solveBatch(qs []*Query, prelude string, opts *SolveOpts, id string) {
 	var sb strings.Builder
 	sb.WriteString(prelude)
-	for _, q := range qs {
+	for qi, q := range qs {
+		fmt.Fprintf(&sb, "(echo \"QUERY-%d\")\n", qi)
 		sb.WriteString("(push 1)\n")
 		for _, d := range q.Decls {
 			sb.WriteString(d)
@@ -244,6 +257,8 @@ func solveBatch(qs []*Query, prelude string, opts *SolveOpts, id string) {
 	if per <= 0 {
 		per = 2 * time.Second
 	}
+	solverSlots <- struct{}{}
+	defer func() { <-solverSlots }()
 	start := time.Now()
 	ctx, cancel := context.WithTimeout(context.Background(), per*time.Duration(len(qs))+5*time.Second)
 	defer cancel()
@@ -252,18 +267,40 @@ func solveBatch(qs []*Query, prelude string, opts *SolveOpts, id string) {
 	cmd.Stdout = &out
 	_ = cmd.Run()
 	el := time.Since(start).Seconds()
-	i := 0
+	if os.Getenv("GOVC_KEEPBATCH") != "" {
+		os.WriteFile("/tmp/batch_"+id+".smt2", []byte(sb.String()), 0o644)
+		os.WriteFile("/tmp/batch_"+id+".out", out.Bytes(), 0o644)
+	}
+	// results are attributed by the QUERY-n marker printed before each query: an error or a
+	// missing answer for one query can never shift the answers of the others
+	cur := -1
+	answered := map[int]bool{}
 	for _, ln := range strings.Split(out.String(), "\n") {
 		ln = strings.TrimSpace(ln)
-		if ln != "sat" && ln != "unsat" && ln != "unknown" {
+		if strings.HasPrefix(ln, "QUERY-") || strings.HasPrefix(ln, "\"QUERY-") {
+			n, err := strconv.Atoi(strings.Trim(strings.TrimPrefix(strings.Trim(ln, "\""), "QUERY-"), "\""))
+			if err == nil {
+				cur = n
+			}
 			continue
 		}
-		if i < len(qs) && ln == "unsat" {
-			qs[i].Result = "unsat"
-			qs[i].Backend = "z3"
-			qs[i].Seconds = el / float64(len(qs))
+		if cur < 0 || cur >= len(qs) || answered[cur] {
+			continue
 		}
-		i++
+		if strings.HasPrefix(ln, "(error") {
+			answered[cur] = true // no verdict for this query
+			continue
+		}
+		if ln == "sat" || ln == "unsat" || ln == "unknown" {
+			answered[cur] = true
+			if ln == "unsat" {
+				qs[cur].Result = "unsat"
+				qs[cur].Backend = "z3"
+				qs[cur].Seconds = el / float64(len(qs))
+			} else {
+				qs[cur].batchVerdict = ln
+			}
+		}
 	}
 }
 
@@ -288,7 +325,7 @@ func SolveAll(obls []*Obligation, prelude string, opts *SolveOpts) {
 			}
 		}
 	}
-	if len(pending) > 3 {
+	if len(pending) > 3 || (opts.BatchOnly && len(pending) > 0) {
 		nw := opts.Workers
 		if nw <= 0 {
 			nw = 8
@@ -299,6 +336,17 @@ func SolveAll(obls []*Obligation, prelude string, opts *SolveOpts) {
 		}
 		if size < 4 {
 			size = 4
+		}
+		if opts.BatchOnly {
+			// candidate rounds: many small batches so that slow (quantified) queries do not serialise
+			size = (len(pending) + 13) / 14
+			if size > 6 {
+				size = 6
+			}
+			if size < 2 {
+				size = 2
+			}
+			nw = 14
 		}
 		var bwg sync.WaitGroup
 		bsem := make(chan struct{}, nw)
@@ -318,6 +366,37 @@ func SolveAll(obls []*Obligation, prelude string, opts *SolveOpts) {
 			}()
 		}
 		bwg.Wait()
+	}
+	if opts.BatchOnly {
+		// inferred-candidate rounds: what z3 answered sat/unknown is dropped; a query the batch never
+		// reached (process killed on a slow neighbour) is retried on its own
+		var retry []*Query
+		for _, q := range pending {
+			if q.Result == "" && q.batchVerdict == "" {
+				retry = append(retry, q)
+			} else if q.Result == "" {
+				q.Result = "unknown"
+			}
+		}
+		var rwg sync.WaitGroup
+		for i, q := range retry {
+			i, q := i, q
+			rwg.Add(1)
+			go func() {
+				defer rwg.Done()
+				file := filepath.Join(opts.Dir, fmt.Sprintf("r%d_%d.smt2", i, time.Now().UnixNano()%1000000000))
+				os.WriteFile(file, []byte(q.SMT(prelude)), 0o644)
+				defer os.Remove(file)
+				r, _ := runSolver(context.Background(), Solvers[0], file, opts.FirstTry+time.Second)
+				if r == "unsat" {
+					q.Result, q.Backend = "unsat", "z3"
+				} else {
+					q.Result = "unknown"
+				}
+			}()
+		}
+		rwg.Wait()
+		return
 	}
 	var jobs []job
 	for oi, o := range obls {
